@@ -117,7 +117,7 @@ func Boot(dir string, o NodeOpts) *Node {
 	}
 	// blocks on disk beyond the snapshot: re-apply them (tail of NewChainExt / client start-up)
 	end, _ := ch.BlockTreeRoot.FindFarthestNode()
-	if end.Height > ch.LastBlock().Height && end.MorePOW(ch.LastBlock()) { // (as both start-up paths do since fix 2d235d92: more work, not just longer)
+	if end != ch.LastBlock() && end.MorePOW(ch.LastBlock()) { // (as both start-up paths do: the branch with more work, higher or not)
 		if o.ClientRecovery {
 			n.clientReplay(end)
 		} else {
